@@ -1,11 +1,13 @@
 -------------------------------- MODULE StdApply --------------------------------
 (* C25, enumeration of "apply a standard type" configurations: element kind x which optional parameter groups the *)
-(* type defines x route (create from the type / change_std_type of an existing element).                           *)
+(* type defines x route (create from the type / change_std_type of an existing element / "rechange": the element   *)
+(* was created from an EARLIER definition of the same type name, the type is then redefined under that name with    *)
+(* overwrite=True and change_std_type is called with the unchanged name - the new values must be applied).          *)
 EXTENDS Integers, FiniteSets, TLC
 Shape(el) == CASE el = "line" -> {"std_type_q", "std_alpha", "std_endtemp", "std_zero_line"}
                [] el = "trafo" -> {"std_shift", "std_tap", "std_zero"}
                [] el = "trafo3w" -> {"std_shift3w", "std_tap3w"}
-Cfgs == UNION {[el : {e}, shape : SUBSET Shape(e), route : {"create", "change"}] : e \in {"line", "trafo", "trafo3w"}}
+Cfgs == UNION {[el : {e}, shape : SUBSET Shape(e), route : {"create", "change", "rechange"}] : e \in {"line", "trafo", "trafo3w"}}
 VARIABLE cfg
 Init == cfg \in Cfgs
 Next == UNCHANGED cfg
